@@ -111,6 +111,9 @@ func init() {
 		return it.bigSet(a[0], it.C.BV2Int(a[1].(*smt.Term)))
 	})
 	R("(*math/big.Int).SetBytes", func(it *Interp, _ *ssa.Function, a []Value) Value {
+		if l, ok := a[1].(LazyBytesV); ok {
+			return it.bigSet(a[0], l.X)
+		}
 		bs := it.bytesOfAny(a[1])
 		return it.bigSet(a[0], it.bytesToInt(bs))
 	})
@@ -167,8 +170,8 @@ func init() {
 		if x.IsConst() {
 			return it.mkByteSlice(it.concBytes(new(big.Int).Abs(x.Val).Bytes()))
 		}
-		// symbolic: length depends on the value; fork over byte lengths up to the declared bound
-		return it.bigBytesSymbolic(x)
+		// symbolic: the length depends on the value; resolved by the consumer (see LazyBytesV)
+		return LazyBytesV{X: it.absT(x)}
 	})
 	R("(*math/big.Int).FillBytes", func(it *Interp, _ *ssa.Function, a []Value) Value {
 		x := it.bigGet(a[0])
@@ -290,6 +293,7 @@ func init() {
 }
 
 func (it *Interp) bytesOfAny(v Value) []*smt.Term {
+	v = it.forceLazy(v)
 	switch x := v.(type) {
 	case SliceV, StrV, *ArrayV:
 		return it.bytesOf(x)
